@@ -196,7 +196,8 @@ func oneLine(s string) string {
 func workRoot() string {
 	r := os.Getenv("VERIF_WORK")
 	if r == "" {
-		r = "/verif/.work"
+		wd, _ := os.Getwd()
+		r = filepath.Join(wd, ".work")
 	}
 	os.MkdirAll(r, 0o755)
 	return r
